@@ -38,7 +38,7 @@ func (m Model) ModelOp(store string, unique bool, op Op) (ok bool, val string, i
 		}
 		m.insert(store, KV{op.Key, op.Val})
 		return true, "", nil, 0, false
-	case "update":
+	case "update", "updcur":
 		if idx < 0 {
 			return false, "", nil, 0, false
 		}
@@ -49,7 +49,7 @@ func (m Model) ModelOp(store string, unique bool, op Op) (ok bool, val string, i
 		return true, "", nil, 0, ambiguous
 	case "updkey":
 		return idx >= 0, "", nil, 0, false
-	case "remove":
+	case "remove", "rmcur":
 		if idx < 0 {
 			return false, "", nil, 0, false
 		}
@@ -149,7 +149,7 @@ func (m Model) ApplyTxnObserved(c *Case, tx *Txn, tr *TxnResult) (unpredictable 
 			unpredictable[sp.Name] = true
 		}
 		switch op.K {
-		case "add", "addif", "upsert", "update", "remove":
+		case "add", "addif", "upsert", "update", "remove", "updcur", "rmcur":
 			if ok != tr.Ops[i].OK {
 				unpredictable[sp.Name] = true
 				continue
